@@ -121,3 +121,71 @@ Theorem C02_fields_tree_roundtrip : forall orc vt dyn vs fs c,
     same_values fleaf fs c' c /\ deep_valid fleaf (cfr_validate orc) fl_flag (vrun vt) dyn vs fs c'.
 Proof. exact cf_tree_roundtrip. Qed.
 Print Assumptions C02_fields_tree_roundtrip.
+
+(* ---- end to end through a real document codec: Config.dumps / Config.loads with format "xml" (XmlConfig.v) ----
+   Config.v's to_tree / load_tree composed with XmlConfigFormat's own codec (Formats.v: _to_element / _from_element, root
+   tag check).  `L : lib B` + `lib_laws L` (Formats.v) are the library laws of C04: float(repr x) = x and the
+   ElementTree/minidom print-parse law (plus the json/bson/pickle round trips for the last theorem). *)
+From Cinco Require Import Formats FormatsLemmas XmlConfig XmlConfigLemmas.
+
+(* the translation between the two views of plain data loses nothing *)
+Theorem C02_plain_data_translates : forall v, plain_data v = true -> exists p, pdata_of v = Some p /\ pyval_of p = v.
+Proof. exact plain_pdata. Qed.
+Print Assumptions C02_plain_data_translates.
+
+(* the rendered tree of a configuration always translates, to a map (premises of C02_tree_plain) *)
+Theorem C02_rendered_tree_translates : forall F (lto_basic : F -> pyval -> res pyval) lsensitive py_strlen,
+  (forall f x b, lto_basic f x = Ok b -> plain_data b = true) ->
+  forall fs c t, to_tree F lto_basic lsensitive py_strlen None fs c = Ok t -> dynamic_plain F fs c = true ->
+  exists m, pdata_of t = Some (VMap m) /\ pyval_of (VMap m) = t.
+Proof. exact rendered_tree_translates. Qed.
+Print Assumptions C02_rendered_tree_translates.
+
+(* for every schema, every deeply valid state whose rendered tree lies in the XML domain (xml_tree_ok: binary64 floats,
+   distinct keys, strings of XML characters without CR, keys and root tag accepted as names), every such root tag:
+   saving as XML and loading the document into a fresh configuration of the schema succeeds with the same values *)
+Theorem C02_xml_save_load : forall F lvalidate lto_python lto_basic ldefault lcallable lsensitive lflag vrun py_strlen,
+  (forall f x, lvalidate f x = Ok x ->
+     exists b b', lto_basic f x = Ok b /\ lto_python f b = Ok b' /\ lvalidate f b' = Ok x) ->
+  (forall n l1 l2, (forall k, vlookup k l1 = vlookup k l2) -> vrun n l1 = vrun n l2) ->
+  forall (B : Type) (L : lib B), lib_laws L ->
+  forall dyn vs fs c, deep_valid F lvalidate lflag vrun dyn vs fs c ->
+  forall rt, (forall t, to_tree F lto_basic lsensitive py_strlen None fs c = Ok t -> xml_tree_ok (l_name_ok L) rt t = true) ->
+  forall w w0 fresh, build_cfg F ldefault lcallable w fs = (w0, fresh) ->
+  exists doc w' c',
+    xml_config_dumps F lto_basic lsensitive py_strlen B L rt fs c = Ok doc /\
+    xml_config_loads F lvalidate lto_python ldefault lcallable lflag vrun B L rt doc w0 fresh dyn vs fs = (w', c', OOk) /\
+    same_values F fs c' c /\ deep_valid F lvalidate lflag vrun dyn vs fs c'.
+Proof. exact xml_save_load. Qed.
+Print Assumptions C02_xml_save_load.
+
+(* a document saved under another root tag is rejected with ValueError before load_tree: the configuration is untouched *)
+Theorem C02_xml_wrong_root_untouched : forall F lvalidate lto_python lto_basic ldefault lcallable lsensitive lflag vrun py_strlen,
+  forall (B : Type) (L : lib B), lib_laws L ->
+  forall fs c rt rt' t, to_tree F lto_basic lsensitive py_strlen None fs c = Ok t ->
+  xml_tree_ok (l_name_ok L) rt t = true -> rt <> rt' ->
+  exists doc, xml_config_dumps F lto_basic lsensitive py_strlen B L rt fs c = Ok doc /\
+    forall w c0 dyn vs,
+      xml_config_loads F lvalidate lto_python ldefault lcallable lflag vrun B L rt' doc w c0 dyn vs fs = (w, c0, OErr EValue).
+Proof. exact xml_save_load_wrong_root. Qed.
+Print Assumptions C02_xml_wrong_root_untouched.
+
+(* every exact format (json with either pretty, bson, pickle, xml with any accepted root tag; PyYAML reorders keys and is
+   covered by C02_codec_roundtrip only up to that) loads the very same configuration: formats agree on configurations *)
+Theorem C04_C02_formats_agree_on_configs : forall F lvalidate lto_python lto_basic ldefault lcallable lsensitive lflag vrun py_strlen,
+  (forall f x, lvalidate f x = Ok x ->
+     exists b b', lto_basic f x = Ok b /\ lto_python f b = Ok b' /\ lvalidate f b' = Ok x) ->
+  (forall n l1 l2, (forall k, vlookup k l1 = vlookup k l2) -> vrun n l1 = vrun n l2) ->
+  forall (B : Type) (L : lib B), lib_laws L ->
+  forall f g, exact_format f = true -> exact_format g = true ->
+  forall dyn vs fs c, deep_valid F lvalidate lflag vrun dyn vs fs c ->
+  (forall t, to_tree F lto_basic lsensitive py_strlen None fs c = Ok t -> tree_in_domain L f t /\ tree_in_domain L g t) ->
+  forall w w0 fresh, build_cfg F ldefault lcallable w fs = (w0, fresh) ->
+  exists docf docg w' c',
+    fmt_config_dumps F lto_basic lsensitive py_strlen B L f fs c = Ok docf /\
+    fmt_config_dumps F lto_basic lsensitive py_strlen B L g fs c = Ok docg /\
+    fmt_config_loads F lvalidate lto_python ldefault lcallable lflag vrun B L f docf w0 fresh dyn vs fs = (w', c', OOk) /\
+    fmt_config_loads F lvalidate lto_python ldefault lcallable lflag vrun B L g docg w0 fresh dyn vs fs = (w', c', OOk) /\
+    same_values F fs c' c.
+Proof. exact formats_agree_on_configs. Qed.
+Print Assumptions C04_C02_formats_agree_on_configs.
